@@ -445,3 +445,72 @@ Section Tamper.
     unfold app_data. apply prefix_app_of. now apply tamper_detected with (st_end := st_end).
   Qed.
 End Tamper.
+
+(* ------------------------------------------------------------ non-vacuity *)
+(* an executable sender, to exhibit chains *)
+Section Send.
+  Variable stream : Z -> bytes -> bytes.
+  Variable cbc_enc : bytes -> bytes -> bytes.
+  Variable seal : bytes -> bytes -> bytes -> bytes.
+  Variable mac : bytes -> bytes.
+  Variables BS MS OVH : Z.
+  Notation enc := (half_encrypt stream cbc_enc seal mac).
+
+  Fixpoint send_all (st : hstate) (ms : list (bytes * bytes)) : option (list msg * list bytes * hstate) :=
+    match ms with
+    | [] => Some ([], [], st)
+    | (hdr, p) :: r =>
+        match enc st hdr p [] with
+        | Ok (rec, st1, calls) =>
+            match send_all st1 r with
+            | Some (Sm, w, st2) => Some ((hd0 hdr, p, calls)   :: Sm, rec :: w, st2)
+            | None => None
+            end
+        | _ => None
+        end
+    end.
+
+  Lemma send_all_chain ms : forall st Sm w st2,
+    wf_state BS MS OVH st ->
+    Forall (fun m => wf_header st (fst m) (snd m)) ms ->
+    send_all st ms = Some (Sm, w, st2) ->
+    sent_chain stream cbc_enc seal mac st Sm st2.
+  Proof.
+    induction ms as [|[hdr p] r IH]; intros st Sm w st2 Hst Hwf H; cbn [send_all] in H.
+    - injection H as <- _ <-. constructor.
+    - destruct (enc st hdr p []) as [[[rec st1] calls]| |] eqn:Ee; try discriminate.
+      destruct (send_all st1 r) as [[[S1 w1] st3]|] eqn:Es; try discriminate.
+      injection H as <- _ <-. inversion Hwf as [|? ? H1 H2]; subst. cbn [fst snd] in H1.
+      destruct (encrypt_seq stream cbc_enc seal mac _ _ _ _ _ _ _ (wfst_not_null _ _ _ _ Hst) Ee) as (_ & Hk & Hv).
+      econstructor; [exact H1 | exact Ee |].
+      apply (IH st1 S1 w1 st3); [unfold wf_state in *; now rewrite Hk, Hv | | exact Es].
+      eapply Forall_impl; [|exact H2]. intros m Hm. unfold wf_header in *. now rewrite Hv.
+  Qed.
+End Send.
+
+Definition nv_msgs : list (bytes * bytes) :=
+  [(rec_header 23%N VersionTLS12 2, [104; 105]%N); (rec_header 23%N VersionTLS12 1, [33]%N)].
+
+(* with the trivial primitives: the honest wire meets the no-forgery premise and
+   everything is delivered (the trivial AEAD authenticates nothing, so for a
+   damaged wire the premise is exactly what fails) *)
+Lemma tamper_nonvacuous :
+  exists Sm w st2,
+    send_all id_stream id_cbc pad_seal zero_mac nv_state nv_msgs = Some (Sm, w, st2) /\
+    sent_chain id_stream id_cbc pad_seal zero_mac nv_state Sm st2 /\
+    (forall a, In a (flat_map dec_auth (all_calls (recv id_stream id_cbc pad_open zero_mac nv_state w))) ->
+               In a (flat_map (enc_auth pad_seal) (all_calls Sm))) /\
+    map content (authenticated (recv id_stream id_cbc pad_open zero_mac nv_state w)) = map content Sm /\
+    length Sm = 2%nat.
+Proof.
+  destruct (send_all id_stream id_cbc pad_seal zero_mac nv_state nv_msgs) as [[[Sm w] st2]|] eqn:E;
+    [|vm_compute in E; discriminate].
+  exists Sm, w, st2. split; [reflexivity|]. split.
+  - apply (send_all_chain id_stream id_cbc pad_seal zero_mac 16 20 16 nv_msgs nv_state Sm w st2); [| |exact E].
+    + cbn. repeat split; try lia. intro H; discriminate H.
+    + repeat constructor; cbn; try lia; intro H; discriminate H.
+  - vm_compute in E. injection E as <- <- <-. split; [|split].
+    + vm_compute. tauto.
+    + vm_compute. reflexivity.
+    + reflexivity.
+Qed.
